@@ -290,7 +290,7 @@ def T(e):
                 rt = rt[1:]
             return rt + sep + name + "(" + ",".join(T(a) for a in args) + ")"
         return name + "(" + ",".join(T(a) for a in args) + ")"
-    if k == "construct":
+    if k in ("construct", "ctor"):
         return short(e.get("rec") or e.get("type") or "T") + "{" + ",".join(T(a) for a in e.get("args", [])) + "}"
     if k == "lambda":
         return "lambda#%s" % e.get("id")
